@@ -29,7 +29,7 @@ SPEC = Spec(
         H("gc", "vf.harness.c06_gc", "h_gc", cubes, timeout={"quick": 300, "thorough": 900}, real=True,
           bounds={"quick": "3 files (one empty) + 1..2 directory objects (shared file); per object: stored?, used? (used ids absent from the store "
                            "included), dry symbolic; cubes: 3 store kinds x shallow/expanding, used ids of another algorithm with the same value, "
-                           "read-only store",
+                           "read-only store, listings supplied by a separate cache_odb",
                   "thorough": "5 listing shapes (empty directory, repeated file, identical listings)"},
           smoke=[{"args": SMOKE, "cube": {"listing": [[0, 1]], "cls": "local", "shallow": False}},
                  {"args": SMOKE, "cube": {"listing": [[0], [0, 2]], "cls": "remote", "shallow": True}}],
@@ -38,7 +38,7 @@ SPEC = Spec(
           stubs=("model local filesystem / model remote", "progress bar silenced")),
     ],
     assumptions=["directory objects in the store are well-formed JSON listings"],
-    outside=["more than 3 files / 2 directory objects", "a separate cache_odb argument", "stores too large for the small-remote listing path "
+    outside=["more than 3 files / 2 directory objects", "stores too large for the small-remote listing path "
              "(prefix-parallel traversal is not reached with < 256 pages)"],
     explanation="CrossHair runs the real gc() on model stores with store contents, used set, dry and read-only flags symbolic; oracle = set "
                 "difference computed independently from a direct listing of the store before/after.",
